@@ -108,7 +108,7 @@ def _eval_rge(case):
                         mx[f"max_rel_dev_exact_{nm}"] = max(mx[f"max_rel_dev_exact_{nm}"], dev)
                         if not dev <= TOL_EXACT:
                             res.fail(
-                                f"Couplings.compute_exact_{path}/qcd={order[0]}/qed={order[1]}/a_{'s' if i == 0 else 'em'}",
+                                f"Couplings.compute_exact_{path}/" + (f"a_s/qcd={order[0]}" if i == 0 else "a_em"),
                                 f"{where}: exact a_{'s' if i == 0 else 'em'} = {got[i]!r}, RGE solution "
                                 f"{mp.nstr(r[i], 15)} (relative deviation {dev:.3e} > {TOL_EXACT})",
                             )
